@@ -112,10 +112,18 @@ class RemoteSched:
             self.unwinding = True
             raise SimInterrupt()
 
+    gc_rng = None
+    gc_prob = 0.0
+
     def point(self, kind, detail=""):
         if self.unwinding:
             self.send(("unwind", kind, detail))
             return
+        if self.gc_rng is not None and self.gc_rng.random() < self.gc_prob:
+            import gc
+
+            gc.collect()  # this worker process's collector runs now
+            self.send(("count", "gc_collect", 1))
         self._rpc(("point", kind, detail))
 
     def lock_acquire(self, uid, name, block=True):
